@@ -3,8 +3,9 @@ CONSTANTS
   MinN = 1
   MaxN = 3
   TypeIds = {1, 2, 3, 4, 5, 6, 7, 8, 10, 11, 12}
+  RunAlgos = {"bnb", "cg"}
   WCross = TRUE
 INIT Init
 NEXT Next
-INVARIANTS TypeOK OptimumExists OptimaAgree NonOptimaWorse OptPcWeaker OptPcSameWithoutCap Admitted BnBIsChangeless AmountIsEffective CGCoversReserve EmitRow
+INVARIANTS TypeOK OptimumExists OptimaAgree NonOptimaWorse OptPcWeaker OptPcSameWithoutCap Admitted BnBIsChangeless AmountIsEffective CGCoversReserve RunEnds AsCodedCG AsCodedBnB AsCodedValid EmitRow
 CHECK_DEADLOCK FALSE
